@@ -402,7 +402,75 @@ def g_reassembly(rng, n, ctx):
     return out
 
 
+def g_config(rng, n, ctx):
+    """CommHandler configuration logic (ch_enable/.../channels_write/stream_start...) with the frame
+    queue and the link replaced by scripted stubs: whole histories, state compared after every call."""
+    import struct
+    from nxslib.comm import CommHandler
+    from nxslib.proto.parse import Parser
+    from nxslib.proto.iframe import DParseFrame, EParseId
+    out = []
+    for _ in range(n):
+        k = rng.randrange(1, 6)
+        flags = rng.choice([3, 3, 2, 1, 0])
+        dev = mkdev(rng, k, flags)
+        items = []
+        for _ in range(rng.randrange(0, 12)):
+            r = rng.random()
+            if r < 0.65:
+                items.append(DParseFrame(fid=EParseId.ACK, data=struct.pack("i", 0)))
+            elif r < 0.8:
+                items.append(DParseFrame(fid=EParseId.ACK, data=struct.pack("i", rng.choice([-1, 5, 1]))))
+            elif r < 0.9:
+                items.append(None)
+            else:
+                items.append(DParseFrame(fid=EParseId.CMNINFO, data=bytes([k, flags, 0])))
+        ops = []
+        for _ in range(rng.randrange(1, 10)):
+            r = rng.random()
+            ch = rng.choice([rng.randrange(k), rng.randrange(k), [rng.randrange(k) for _ in range(rng.randrange(0, 3))],
+                             k + 1 if rng.random() < 0.1 else 0])
+            if r < 0.25:
+                ops.append(["enable", ch])
+            elif r < 0.4:
+                ops.append(["disable", ch])
+            elif r < 0.55:
+                ops.append(["divider", ch, rng.choice([0, 1, 7, 255, 256 if rng.random() < 0.1 else 3])])
+            elif r < 0.8:
+                ops.append(["write"])
+            elif r < 0.84:
+                ops.append(["default"])
+            elif r < 0.88:
+                ops.append(["enable_all"])
+            elif r < 0.92:
+                ops.append([rng.choice(["start", "stop"])])
+            else:
+                ops.append([rng.choice(["is_enabled", "div_get"]), rng.randrange(k)])
+
+        def build():
+            c = CommHandler(prelude_py.LogIntf(), Parser())
+            c._q = prelude_py.ScriptQueue(list(items))
+            c._dev = relock(dev)
+            c._channels_init(c._dev)
+            return c
+
+        def run(ops):
+            c = build()
+            v = prelude_py.comm_run(c, ops)
+            # locks cannot be serialised: compare the views only
+            for x in v:
+                pass
+            return v
+
+        c0 = build()
+        csx = pyl.RawSx("(o CommHandler (_started F) (_intf (o LogIntf (written (l)))) (_parse %s) (_dev %s) (_q %s) (_channels %s))" % (
+            ctx.pa_sx.text, pyl.sx(nolock(dev)), pyl.sx(c0._q), pyl.sx(c0._channels)))
+        out.append((pyl.fn_cmd("comm_run", [csx, ops], fuel=200), pyl.impl_result(run, ops), "config history"))
+    return out
+
+
 GROUPS = {
+    "config": g_config,
     "reassembly": g_reassembly,
     "pad": g_pad,
     "frame": g_frame,
